@@ -186,9 +186,16 @@ class Mk:
     def __call__(self, a, name="array"):
         a = np.array(a)
         if self.mode == "view" and a.ndim in (1, 2) and a.size:
+            self.nview = getattr(self, "nview", 0) + 1
+            lay = self.nview % 3  # strided view / contiguous slice of a larger buffer / column-major (F-ordered) array
             if a.ndim == 1:
-                buf = np.zeros(2 * a.size + 1, dtype=a.dtype)
-                v = buf[1::2]
+                buf = np.zeros(2 * a.size + 3, dtype=a.dtype)
+                v = buf[1 : 1 + 2 * a.size : 2] if lay != 1 else buf[2 : 2 + a.size]
+            elif lay == 2:
+                v = np.zeros(a.shape, dtype=a.dtype, order="F")
+            elif lay == 1:
+                buf = np.zeros((a.shape[0] + 2, a.shape[1]), dtype=a.dtype)
+                v = buf[1:-1]
             else:
                 buf = np.zeros((a.shape[0], 2 * a.shape[1]), dtype=a.dtype)
                 v = buf[:, ::2]
@@ -545,6 +552,85 @@ def scn_transforms(R, rng):
     ng = R.call("PowerRTransform.transform_1d_grid", ptf.transform_1d_grid, ui)
     if ng is not None:
         R.keep("power-ui", ng.weights)
+
+
+EDGE = 3e-9  # OneDGrid admits points outside its domain by up to 1e-7
+
+
+def scn_edge_passthrough(R, rng):
+    """Values at the EDGE of what the constructors admit, through operations that may pass their input through:
+    hand-made 1-D grids with nodes outside their domain within the admitted tolerance (both ends where the image stays
+    admissible), transform_1d_grid of EVERY transform class incl. Identity, Inverse(Identity), LinearFinite with identity
+    parameters and their inverses, then Identity again on the result, then AtomGrid / MolGrid built on the result.  The
+    source grid's points / weights and every array the caller keeps are compared afterwards."""
+    import grid.rtransform as rt
+    from grid.atomgrid import AtomGrid
+    from grid.basegrid import OneDGrid
+    from grid.becke import BeckeWeights
+    from grid.molgrid import MolGrid
+
+    mk, ctx = R.mk, R.ctx
+    n = int(rng.integers(6, 12))
+    tfs = [(name, getattr(rt, name)(*args, **kw)) for name, args, kw in _TF_SPECS]
+    ident, lin_id = rt.IdentityRTransform(), rt.LinearFiniteRTransform(-1.0, 1.0)
+    tfs += [("Inverse(Identity)", rt.InverseRTransform(ident)), ("LinearFinite(-1,1)", lin_id), ("Inverse(LinearFinite(-1,1))", rt.InverseRTransform(lin_id)),
+            ("Inverse(Becke)", rt.InverseRTransform(rt.BeckeRTransform(0.0, 1.5))), ("Inverse(Inverse(Identity))", rt.InverseRTransform(rt.InverseRTransform(ident)))]
+    radial = []
+    for name, tf in tfs:
+        lo, hi = (float(v) for v in tf.domain)
+        top = hi if np.isfinite(hi) else 25.0
+        base = np.sort(rng.uniform(lo + 0.05 * (top - lo), top - 0.05 * (top - lo), n))
+        if name.startswith(("LinearInfinite", "Exp", "Power")):
+            base = np.arange(1, n + 1, dtype=float)
+        for which in ("none", "below", "above", "both"):
+            xs = base.copy()
+            if which in ("below", "both") and np.isfinite(lo):
+                xs[0] = lo - EDGE
+            if which in ("above", "both") and np.isfinite(hi):
+                xs[-1] = hi + EDGE
+            if which != "none" and np.array_equal(xs, base):
+                continue
+            dom = (lo, hi)
+            # admissible only when the image of the grid is itself an admissible OneDGrid (the library re-validates it)
+            with np.errstate(all="ignore"):
+                img = np.asarray(tf.transform(xs.copy()), dtype=float)
+                nd = np.sort(np.asarray(tf.transform(np.array(dom)), dtype=float))
+            if not (np.all(np.isfinite(img)) and np.all(np.isfinite(nd[:1])) and img.min() >= nd[0] - 5e-8 and (not np.isfinite(nd[1]) or img.max() <= nd[1] + 5e-8)):
+                ctx.count("edge-passthrough:image-not-admissible")
+                continue
+            x = mk(R.arrange(xs) if R.pick([False, True]) else xs, f"{name}.points[{which}]")
+            w = mk(rng.uniform(0.1, 0.4, n), f"{name}.weights[{which}]")
+            og = R.call("OneDGrid", OneDGrid, x, w, dom)
+            if og is None:
+                continue
+            p0, w0 = np.array(og.points, copy=True), np.array(og.weights, copy=True)
+            ng = R.call(f"{type(tf).__name__}.transform_1d_grid", tf.transform_1d_grid, og)
+            same = og.points.tobytes() == p0.tobytes() and og.weights.tobytes() == w0.tobytes() and og.points is x and og.weights is w
+            ctx.check("caller-data-unchanged-after-sequence", f"{name}.transform_1d_grid:source-grid", same, sig="source-grid-arrays-changed", detail={"edge": which, "points_before": p0[[0, -1]], "points_after": np.asarray(og.points)[[0, -1]]})
+            if ng is None:
+                continue
+            R.keep(f"{name}.{which}.p", ng.points)
+            R.keep(f"{name}.{which}.w", ng.weights)
+            ng2 = R.call("IdentityRTransform.transform_1d_grid", ident.transform_1d_grid, ng) if ng.domain[0] >= 0 else None  # pass-through again
+            if ng2 is not None:
+                R.keep(f"{name}.{which}.again", ng2.points)
+            if ng.domain[0] >= 0 and np.isfinite(ng.points).all() and ng.points.max() < 1e6 and ng.points.min() >= 0:  # AtomGrid rejects negative radii
+                radial.append((f"{name}[{which}]", ng2 if ng2 is not None else ng, og, p0, w0))
+    # atomic / molecular grids on (a rotating selection of) the transformed radial grids
+    k0 = R.pick(list(range(5)))
+    for lab, rg, og, p0, w0 in radial[k0::5][:6]:
+        c1, c2 = mk(rng.normal(size=3) * 0.2, "center1"), mk(np.array([0.0, 0.0, 1.4]), "center2")
+        at = R.call("AtomGrid", AtomGrid, rg, degrees=[R.pick([3, 5, 7])], center=c1, rotate=R.pick([0, 4]))
+        at2 = R.call("AtomGrid", AtomGrid, rg, sizes=mk.obj([6] * rg.size, "sizes"), degrees=None, center=c2)
+        if at is None or at2 is None:
+            continue
+        f = mk(np.exp(-np.sum(at.points**2, axis=1)), "func_vals")
+        R.keep(lab + ".at", R.call("AtomGrid.integrate", at.integrate, f))
+        mg = R.call("MolGrid", MolGrid, mk(np.array([1, 8]), "atnums"), mk.obj([at, at2], "atgrids"), BeckeWeights(), store=R.pick([True, False]))
+        if mg is not None:
+            R.keep(lab + ".mg", float(np.sum(mg.weights)))
+        same = og.points.tobytes() == p0.tobytes() and og.weights.tobytes() == w0.tobytes()
+        ctx.check("caller-data-unchanged-after-sequence", "AtomGrid/MolGrid on transformed grid:source-grid", same, sig="source-grid-arrays-changed", detail={"grid": lab})
 
 
 def scn_onedgrid_rules(R, rng):
@@ -1759,6 +1845,7 @@ SCENARIOS = {
     "ngrid": 2.0,
     "coulomb-utils": 2.0,
     "rejected-calls": 2.0,
+    "edge-passthrough": 3.0,
 }
 _SCN_FN = {
     "basegrid": scn_basegrid,
@@ -1772,6 +1859,7 @@ _SCN_FN = {
     "ngrid": scn_ngrid,
     "coulomb-utils": scn_coulomb_utils,
     "rejected-calls": scn_rejected,
+    "edge-passthrough": scn_edge_passthrough,
 }
 
 
